@@ -703,13 +703,24 @@ func run(c *C) {
 					runCase(c, &cs)
 				}
 				// protodelim
-				for i := 0; i < c.N(2, 30) && !c.Failed(); i++ {
+				for i := 0; i < c.N(4, 40) && !c.Failed(); i++ {
 					cs := Case{Stage: "delim", Type: r.Name, Dyn: dyn, Lazy: lazy, Seed: c.Rand.Int63(), Defer: c.Rand.Intn(2) == 0}
 					cs.BufSize = []int{16, 32, 64, 128, 256, 512, 4096}[c.Rand.Intn(7)]
+					maxLen := 0
 					for k := 2 + c.Rand.Intn(3); k > 0; k-- {
 						prob := 2 + c.Rand.Intn(8)
 						if b, _ := wire(c, r, dyn, prob); b != nil {
 							cs.Stream = append(cs.Stream, vh.Hex(b))
+							if len(b) > maxLen {
+								maxLen = len(b)
+							}
+						}
+					}
+					if i%2 == 0 {
+						// every message fits the reader's buffer: UnmarshalFrom decodes from the Peek window
+						cs.BufSize = 16
+						for cs.BufSize < maxLen+4 {
+							cs.BufSize *= 2
 						}
 					}
 					runCase(c, &cs)
